@@ -104,6 +104,11 @@ func runScenario(sc *scenario) (res runResult) {
 			res.NFall = r.nFall
 			res.Final = w
 			res.Statuses = rw.Status
+			if strings.HasPrefix(res.PanicMsg, "runaway") {
+				// unbounded recursion in the library: keep the beginning of the trace only, and do not enumerate faults
+				res.Trace = res.Trace[:60]
+				res.NFall = 0
+			}
 		}
 	}()
 	ctx := context.Background()
